@@ -5,6 +5,7 @@ point k.  Every block logs its id together with the exception currently being ha
 executed blocks and sys.exc_info() at every point are part of the observation; the function result / the propagating
 exception (class, args, __cause__/__context__/__suppress_context__ chain, ExceptionGroup structure) is the rest.
 """
+import re
 
 HEADER = '''# cython: language_level=3
 import sys
@@ -79,6 +80,12 @@ CLAUSES = ['ValueError', 'KeyError', '(ValueError, TypeError)', 'Exception', 'My
            'MyBase', 'StopIteration']
 STAR_CLAUSES = ['ValueError', 'TypeError', 'KeyError', '(ValueError, KeyError)', 'Exception', 'LookupError']
 CODES = ['V', 'K', 'T', 'M', 'B', 'S']
+# which injected exception codes an except clause catches (directed scenarios, see ExcGen.scenario)
+CLAUSE_CODES = {'ValueError': 'V', 'KeyError': 'K', '(ValueError, TypeError)': 'VT', 'Exception': 'VKTMS', 'MyErr': 'M',
+                'LookupError': 'K', '': 'VKTMBS', 'BaseException': 'VKTMBS', 'MyBase': 'B', 'StopIteration': 'S'}
+STAR_CLAUSE_CODES = {'ValueError': 'GHV', 'TypeError': 'GT', 'KeyError': 'HK', '(ValueError, KeyError)': 'GHVK',
+                     'Exception': 'GHVKTMS', 'LookupError': 'HK'}
+MAX_SCENARIOS = 12
 
 
 class ExcGen:
@@ -92,6 +99,42 @@ class ExcGen:
         self.feat = set()
         self.stack = []             # 'loop', 'handler', 'finally', 'star', 'func'
         self.nfun = 0
+        # how execution gets to the place being generated *with an exception in flight / being handled*: one entry per
+        # enclosing except clause / finally clause, (kind, point id in the try body or None, codes that lead here)
+        self.path = []
+        self.scenarios = []         # directed injections: [(point, codes) | ('flag', id), ...] that steer into a nested jump
+
+    def direct_point(self, body, ind):
+        """an injection point of `body` that is a statement of the block itself (indentation `ind`), else None"""
+        for line in body:
+            m = re.match(r'%smr\(inj, (\d+)\)$' % re.escape(ind), line)
+            if m:
+                return int(m.group(1))
+        return None
+
+    def ensure_direct_point(self, body, ind):
+        """most try bodies get an injection point of their own, so that their except / finally clauses can be entered with
+        a chosen exception whatever the nested statements do"""
+        bp = self.direct_point(body, ind)
+        if bp is None and self.rng.random() < 0.6:
+            body[1:1] = self.point(ind)
+            bp = self.points[-1]
+        return bp
+
+    def scenario(self, flag=None):
+        """the jump generated next sits inside handlers / finally clauses: remember which points have to raise (and which
+        flag has to be set) so that it is executed with all the enclosing exceptions active; for a jump in a finally clause
+        also the variant in which that clause is entered without exception"""
+        steps = [(p, codes) for kind, p, codes in self.path if p is not None and codes]
+        if not steps or (len(steps) < 2 and flag is None):
+            return              # single injections and flag x single combinations reach these already
+        variants = [steps]
+        if self.path[-1][0] == 'finally' and self.path[-1][1] is not None and len(steps) >= 2:
+            variants.append(steps[:-1])
+        for st in variants:
+            sc = list(st) + ([('flag', flag)] if flag is not None else [])
+            if sc not in self.scenarios:
+                self.scenarios.append(sc)
 
     def newid(self):
         self.nid += 1
@@ -144,15 +187,25 @@ class ExcGen:
         if self.can_return():
             opts += ['return']
         if self.in_loop():
-            opts += ['break', 'continue'] * 2
+            opts += ['break', 'continue'] * 3
+        ctxs = {'handler': 'handler', 'finally': 'finally', 'star': 'handler'}
+        where = next((ctxs[c] for c in reversed(self.stack) if c in ctxs), 'body')
         if 'handler' in self.stack:
             opts += ['raise', 'raise', 'raise-from', 'raise-new']
         else:
             opts += ['raise-new']
+        if where == 'finally':
+            # a bare raise in a finally clause re-raises the exception that travelled into the clause (whether or not the
+            # statement sits in an except clause; without any exception it is a RuntimeError in both implementations)
+            opts += ['raise']
         o = rng.choice(opts)
-        ctxs = {'handler': 'handler', 'finally': 'finally', 'star': 'handler'}
-        where = next((ctxs[c] for c in reversed(self.stack) if c in ctxs), 'body')
         self.feat.add('%s-in-%s' % (o, where))
+        if where == 'finally' and self._finally_in_handler():
+            self.feat.add('%s-in-finally-in-handler' % o)
+        if o == 'raise' and self._intercepted():
+            self.feat.add('raise-in-%s-intercepted' % where)
+        if not getattr(self, '_in_cond', False):
+            self.scenario()
         if o == 'return':
             return [ind + 'return %d' % self.newid()]
         if o in ('break', 'continue'):
@@ -164,6 +217,28 @@ class ExcGen:
             src = rng.choice(['None', 'e', "KeyError('c%d')" % k]) if self._has_e() else rng.choice(['None', "KeyError('c%d')" % k])
             return [ind + "raise %s from %s" % (rng.choice(["ValueError(%d)", "MyErr(%d)", "TypeError(%d)"]) % k, src)]
         return [ind + 'raise %s' % (rng.choice(["ValueError(%d)", "MyErr(%d)", "KeyError(%d)", "MyBase(%d)"]) % k)]
+
+    def _intercepted(self):
+        """the statement sits in a try body / with body that is nested in the innermost except or finally clause: what a bare
+        'raise' re-raises can be caught or suppressed before it leaves that clause"""
+        for c in reversed(self.stack):
+            if c in ('trybody', 'withbody'):
+                return True
+            if c in ('handler', 'star', 'finally', 'func'):
+                return False
+        return False
+
+    def _finally_in_handler(self):
+        """innermost clause is a finally clause and the try statement is lexically inside an except clause of the same function"""
+        seen_fin = False
+        for c in reversed(self.stack):
+            if c == 'func':
+                return False
+            if c == 'finally':
+                seen_fin = True
+            elif c in ('handler', 'star') and seen_fin:
+                return True
+        return False
 
     def _has_e(self):
         for c in reversed(self.stack):
@@ -183,7 +258,12 @@ class ExcGen:
         # a jump guarded by an injection-controlled condition, so that both ways are explored
         k = self.newid()
         self.points.append(('flag', k))
-        j = self.jump(ind + '    ')
+        self.scenario(flag=k)
+        self._in_cond = True
+        try:
+            j = self.jump(ind + '    ')
+        finally:
+            self._in_cond = False
         return [ind + 'if inj.get(%d):' % k] + j
 
     def stmt(self, ind, depth):
@@ -193,6 +273,9 @@ class ExcGen:
             return self.leaf(ind)
         kinds = [('leaf', 26 + 14 * depth), ('try', 26), ('tryfin', 14), ('with', 10), ('jump', 7), ('cjump', 12), ('loop', 6),
                  ('func', 4), ('gen', 4)]
+        if next(c for c in reversed(self.stack) if c not in ('trybody', 'withbody')) in ('handler', 'star'):
+            # statements of an except clause: more nested try statements (clauses run while another exception is handled)
+            kinds = [(kk, w + 12 if kk in ('try', 'tryfin') else w) for kk, w in kinds]
         if self.star:
             kinds.append(('star', 30))
         if 'finally' in self.stack:
@@ -225,7 +308,9 @@ class ExcGen:
         if k == 'try':
             self.feat.add('try-except')
             tid = self.newid()
+            self.stack.append('trybody')
             body = [i2 + "log(('try', %d, ei()))" % tid] + self.block(i2, depth + 1)
+            self.stack.pop()
             out = [ind + 'try:'] + body
             ncl = rng.choice([1, 1, 2, 2, 3])
             cl = []
@@ -236,19 +321,24 @@ class ExcGen:
             cl.sort(key=lambda c: (c == '', c == 'BaseException'))
             if '' in cl and 'BaseException' in cl:
                 cl.remove('BaseException')
+            bp = self.ensure_direct_point(body, i2)
+            caught = ''
             for c in cl:
                 named = c != '' and rng.random() < 0.6
                 out.append(ind + ('except %s%s:' % (c, ' as e' if named else '') if c else 'except:'))
                 self.feat.add('except-%s' % ('bare' if c == '' else 'tuple' if c.startswith('(') else 'as' if named else 'typed'))
                 self.stack.append('handler-e' if named else 'handler-n')
                 self.stack.append('handler')
+                self.path.append(('handler', bp, ''.join(x for x in CLAUSE_CODES[c] if x not in caught)))
+                caught += CLAUSE_CODES[c]
                 hb = [i2 + "log(('h', %d, ei()))" % self.newid()]
                 if named and rng.random() < 0.5:
                     hb.append(i2 + "log(('e', type(e).__name__, type(e.__context__).__name__, type(e.__cause__).__name__))")
                 hb += self.block(i2, depth + 1, 1, 2)
-                hb += self.extra_jump(i2, hb, 0.4)
+                hb += self.extra_jump(i2, hb, 0.55)
                 self.stack.pop()
                 self.stack.pop()
+                self.path.pop()
                 out += hb
             if rng.random() < 0.3:
                 self.feat.add('try-else')
@@ -256,50 +346,63 @@ class ExcGen:
             if rng.random() < 0.35:
                 self.feat.add('try-except-finally')
                 self.stack.append('finally')
+                self.path.append(('finally', bp, ''.join(x for x in CODES if x not in caught)))
                 fb = [i2 + "log(('f', %d, ei()))" % self.newid()] + self.block(i2, depth + 1, 1, 2)
-                fb += self.extra_jump(i2, fb, 0.3)
+                fb += self.extra_jump(i2, fb, 0.45)
                 out += [ind + 'finally:'] + fb
                 self.stack.pop()
+                self.path.pop()
             out.append(ind + "log(('after', %d, ei()))" % tid)
             return out
         if k == 'star':
             self.feat.add('except-star')
             tid = self.newid()
+            self.stack.append('trybody')
             body = [i2 + "log(('try', %d, ei()))" % tid] + self.block(i2, depth + 1)
+            self.stack.pop()
             out = [ind + 'try:'] + body
             cl = []
             for _ in range(rng.choice([1, 2, 2])):
                 c = rng.choice(STAR_CLAUSES)
                 if c not in cl:
                     cl.append(c)
+            bp = self.ensure_direct_point(body, i2)
             for c in cl:
                 named = rng.random() < 0.7
                 out.append(ind + 'except* %s%s:' % (c, ' as e' if named else ''))
                 self.stack.append('handler-e' if named else 'handler-n')
                 self.stack.append('star')
+                self.path.append(('handler', bp, STAR_CLAUSE_CODES[c]))
                 hb = [i2 + "log(('hs', %d, ei()))" % self.newid()]
                 if named:
                     hb.append(i2 + "log(('eg', egs(e)))")
                 hb += self.block(i2, depth + 1, 1, 2)
                 self.stack.pop()
                 self.stack.pop()
+                self.path.pop()
                 out += hb
             if rng.random() < 0.3:
                 out += [ind + 'else:', i2 + "log(('else', %d, ei()))" % self.newid()]
             if rng.random() < 0.3:
                 self.stack.append('finally')
+                self.path.append(('finally', bp, ''.join(x for x in 'GHVKTMBS' if not all(x in STAR_CLAUSE_CODES[c] for c in cl))))
                 out += [ind + 'finally:', i2 + "log(('f', %d, ei()))" % self.newid()] + self.block(i2, depth + 1, 1, 1)
                 self.stack.pop()
+                self.path.pop()
             out.append(ind + "log(('after', %d, ei()))" % tid)
             return out
         if k == 'tryfin':
             self.feat.add('try-finally')
             tid = self.newid()
+            self.stack.append('trybody')
             body = [i2 + "log(('try', %d, ei()))" % tid] + self.block(i2, depth + 1)
-            self.stack.append('finally')
-            fin = [i2 + "log(('f', %d, ei()))" % self.newid()] + self.block(i2, depth + 1, 1, 2)
-            fin += self.extra_jump(i2, fin, 0.35)
             self.stack.pop()
+            self.stack.append('finally')
+            self.path.append(('finally', self.ensure_direct_point(body, i2), ''.join(CODES)))
+            fin = [i2 + "log(('f', %d, ei()))" % self.newid()] + self.block(i2, depth + 1, 1, 2)
+            fin += self.extra_jump(i2, fin, 0.5)
+            self.stack.pop()
+            self.path.pop()
             return [ind + 'try:'] + body + [ind + 'finally:'] + fin + [ind + "log(('after', %d, ei()))" % tid]
         if k == 'with':
             kk = self.newid()
@@ -308,7 +411,9 @@ class ExcGen:
             self.points.append(kk + 1)   # raise in __exit__
             mode = rng.choice(['', '', 'suppress'])
             self.feat.add('with' + ('-suppress' if mode else ''))
+            self.stack.append('withbody')
             body = self.block(i2, depth + 1)
+            self.stack.pop()
             tgt = ' as w' if rng.random() < 0.3 else ''
             return [ind + 'with CM(inj, %d, %r)%s:' % (kk, mode, tgt)] + body + [ind + "log(('after-with', %d, ei()))" % kk]
         if k == 'func':
@@ -365,7 +470,7 @@ def gen_function(rng, name, star=False):
             compile(src, name, 'exec')
         except SyntaxError:
             continue
-        return {'name': name, 'src': src, 'points': g.points, 'feat': sorted(g.feat), 'star': star}
+        return {'name': name, 'src': src, 'points': g.points, 'feat': sorted(g.feat), 'star': star, 'scenarios': g.scenarios}
     raise RuntimeError('excgen could not produce a valid function')
 
 
@@ -403,4 +508,24 @@ def injections(rng, f, max_pairs=30):
         out.append(d)
     if len(flags) >= 2:
         out.append({fl: 1 for fl in flags})
+    # directed scenarios: every return/break/continue/raise that sits inside nested except / finally clauses is run with
+    # the enclosing exceptions really in flight (a different class at every level where the clauses allow it)
+    scs = list(f.get('scenarios', ()))
+    if len(scs) > MAX_SCENARIOS:
+        scs = rng.sample(scs, MAX_SCENARIOS)
+    for sc in scs:
+        for _ in range(2):
+            d = {}
+            used = set()
+            for p, codes in sc:
+                if p == 'flag':
+                    d[codes] = 1
+                    continue
+                if p in d:
+                    continue
+                fresh = [c for c in codes if c not in used] or list(codes)
+                d[p] = rng.choice(fresh)
+                used.add(d[p])
+            if d not in out:
+                out.append(d)
     return out
